@@ -13,7 +13,6 @@ import (
 	"syscall"
 	"time"
 
-	"github.com/folbricht/desync"
 	"pgregory.net/rapid"
 
 	"verifharness/internal/dx"
@@ -32,6 +31,31 @@ type CLI struct {
 	Stdout   bool   `json:"stdout,omitempty"` // cat, untar gnu-tar: output to stdout instead of a file argument
 	Offset   int    `json:"offset,omitempty"` // cat: >0: --offset (selector)
 	Length   int    `json:"length,omitempty"` // cat: >0: --length (selector)
+	// Opts: options that have nothing to do with verification (and one that has): see cliOptions
+	Opts []string `json:"opts,omitempty"`
+}
+
+// Options a case may add to the command. All but the last must leave the verdict untouched;
+// the last one is the explicit way to disable verification for the store under test, and the
+// exemption of the statement then applies.
+const (
+	optTrustInsecure = "trust-insecure"                    // -t: a TLS setting
+	optErrorRetry    = "error-retry"                       // -e 2
+	optRetryInterval = "error-retry-base-interval"         // -b 1ms
+	optVerbose       = "verbose"                           // --verbose
+	optCfgSkipOther  = "config-skip-verify-other-location" // config: "skip-verify": true for other locations
+	optCfgSkipThis   = "config-skip-verify-this-location"  // config: "skip-verify": true for the poisoned store
+)
+
+var cliOptions = []string{optTrustInsecure, optTrustInsecure, optErrorRetry, optRetryInterval, optVerbose, optCfgSkipOther, optCfgSkipOther, optCfgSkipThis}
+
+func hasOpt(opts []string, o string) bool {
+	for _, x := range opts {
+		if x == o {
+			return true
+		}
+	}
+	return false
 }
 
 func genCLI(t *rapid.T) *CLI {
@@ -44,6 +68,11 @@ func genCLI(t *rapid.T) *CLI {
 		c.SSH = rapid.IntRange(0, 3).Draw(t, "ssh") == 0
 	}
 	c.N = rapid.IntRange(1, 4).Draw(t, "n")
+	for i, k := 0, rapid.IntRange(0, 3).Draw(t, "nopts"); i < k; i++ {
+		if o := rapid.SampledFrom(cliOptions).Draw(t, "opt"); !hasOpt(c.Opts, o) {
+			c.Opts = append(c.Opts, o)
+		}
+	}
 	switch c.Cmd {
 	case "untar":
 		c.Format = rapid.SampledFrom([]string{"disk", "gnu-tar", "gnu-tar"}).Draw(t, "format")
@@ -130,10 +159,31 @@ func runCLI(c Case) (o hx.Outcome) {
 	f.Close()
 
 	// store options come from a config file (the only way to name an uncompressed store)
-	cfg := map[string]any{"store-options": map[string]any{}}
+	storeOpts := map[string]any{}
+	this := map[string]any{}
 	if unc {
-		cfg["store-options"] = map[string]any{poisoned: desync.StoreOptions{Uncompressed: true, ErrorRetry: 0}}
+		this["uncompressed"] = true
+		this["error-retry"] = 0
 	}
+	// verification explicitly switched off for the poisoned store itself (a local path; the
+	// casync protocol client used for ssh:// has no such switch)
+	skipThis := hasOpt(cl.Opts, optCfgSkipThis) && !ssh
+	if skipThis {
+		this["skip-verify"] = true
+	}
+	if len(this) > 0 {
+		storeOpts[poisoned] = this
+	}
+	if hasOpt(cl.Opts, optCfgSkipOther) {
+		// entries for other locations must not leak to the store under test
+		storeOpts[filepath.Join(work, "elsewhere")] = map[string]any{"skip-verify": true}
+		storeOpts["http://other.example/store"] = map[string]any{"skip-verify": true, "trust-insecure": true}
+		storeOpts[poisoned+"-old"] = map[string]any{"skip-verify": true, "uncompressed": !unc}
+		if cl.Role != "cache" {
+			storeOpts[healthyDir] = map[string]any{"skip-verify": true} // a store the command does not use
+		}
+	}
+	cfg := map[string]any{"store-options": storeOpts}
 	cfgBytes, _ := json.Marshal(cfg)
 	cfgPath := dx.WriteFile(work, "config.json", cfgBytes)
 
@@ -154,7 +204,22 @@ func runCLI(c Case) (o hx.Outcome) {
 		defer cleanup()
 		storeArg = fakessh.URL("ssh", poisoned).String()
 	}
-	args := []string{"--config", cfgPath, cl.Cmd, "-n", fmt.Sprint(n), "-e", "0"}
+	args := []string{"--config", cfgPath}
+	if hasOpt(cl.Opts, optVerbose) {
+		args = append(args, "--verbose")
+	}
+	args = append(args, cl.Cmd, "-n", fmt.Sprint(n))
+	if hasOpt(cl.Opts, optErrorRetry) {
+		args = append(args, "-e", "2")
+	} else {
+		args = append(args, "-e", "0")
+	}
+	if hasOpt(cl.Opts, optRetryInterval) {
+		args = append(args, "-b", "1ms")
+	}
+	if hasOpt(cl.Opts, optTrustInsecure) {
+		args = append(args, "-t")
+	}
 	if cl.Role == "cache" {
 		args = append(args, "-s", healthyDir, "-c", poisoned)
 		if cl.NoRepair {
@@ -230,10 +295,27 @@ func runCLI(c Case) (o hx.Outcome) {
 	if ssh {
 		o.Class("cli:ssh")
 	}
-	demanded := cl.Role == "cache" && !cl.NoRepair
+	demanded := cl.Role == "cache" && !cl.NoRepair && !skipThis
+	for _, op := range cl.Opts {
+		if op == optCfgSkipThis && !skipThis {
+			continue
+		}
+		if effective {
+			o.Class("cli:option:" + op)
+		}
+	}
+	if len(cl.Opts) == 0 && effective {
+		o.Class("cli:option:none")
+	}
 	switch {
 	case hung:
 		o.Fail("C03:cli:"+cl.Cmd+":hang", "the command did not end within %s — %s", cliTimeout, where)
+	case skipThis:
+		// the config file says "skip-verify" for the poisoned store: nothing is promised
+		o.Class("unasserted:cli-config-skipverify")
+		if runErr == nil {
+			o.Class("cli:unverified-run-succeeded")
+		}
 	case runErr != nil:
 		o.Class("result:error")
 		if demanded {
@@ -296,8 +378,8 @@ func runCLI(c Case) (o hx.Outcome) {
 	if effective {
 		o.Class("effective")
 		// consumer classes count the runs in which the damaged chunk stood between the
-		// command and its output: the poisoned store is the only source
-		if cl.Role == "store" {
+		// command and its output: the poisoned store is the only source, and it verifies
+		if cl.Role == "store" && !skipThis {
 			switch cl.Cmd {
 			case "cat":
 				o.Class("consumer:cli-cat:" + variant)
@@ -319,8 +401,8 @@ func runCLI(c Case) (o hx.Outcome) {
 			}
 		}
 	}
-	o.Nontrivial = effective
-	o.Desc = map[string]any{"mode": mCLI, "cmd": cl.Cmd, "role": cl.Role, "no_repair": cl.NoRepair, "ssh": ssh, "format": fmtn, "corruption": kind, "what": detail,
+	o.Nontrivial = effective && !skipThis
+	o.Desc = map[string]any{"opts": strings.Join(cl.Opts, ","), "mode": mCLI, "cmd": cl.Cmd, "role": cl.Role, "no_repair": cl.NoRepair, "ssh": ssh, "format": fmtn, "corruption": kind, "what": detail,
 		"chunks": len(pd.items), "bytes": len(pd.blob), "victim_len": len(victim.data), "effective": effective, "failed": runErr != nil}
 	o.Key = fmt.Sprintf("cli/%s/%s/%s/%s/%v/%v/%v/%s/%s", cl.Cmd, format, variant, p.Tree, toStdout, cl.Role, cl.NoRepair || ssh, fmtn, kind)
 	return o
